@@ -676,12 +676,19 @@ fn check_case(case: &Value) -> Value {
                                 if d_wt != 0 {
                                     return viol("failed_run_changed_history", format!("Start failed with {} after {d_wt} commit(s)", err_name(e.code)));
                                 }
+                                // C09: a failed pass restores the inboxes: what was pending is still pending
+                                if after.status.work_state != before.status.work_state {
+                                    return viol("failed_run_changed_pending_work", format!("Start failed with {}: work state {} -> {}", err_name(e.code), status_json(&before.status)["work"], status_json(&after.status)["work"]));
+                                }
                             }
                         }
                         Outcome::Panic(_) => {
                             stats.panics += 1;
                             if d_wt != 0 || d_gt != 0 {
                                 return viol("failed_run_changed_history", format!("Start panicked, ticks moved by {d_wt} / {d_gt}"));
+                            }
+                            if after.status.work_state != before.status.work_state {
+                                return viol("failed_run_changed_pending_work", format!("Start panicked: work state {} -> {}", status_json(&before.status)["work"], status_json(&after.status)["work"]));
                             }
                             if let Some(r) = after.status.run_id.as_ref() {
                                 book.max_run = book.max_run.max(r.0);
